@@ -80,7 +80,7 @@ def coq_make(targets, timeout=1500):
     """make the given .vo targets; returns (ok, output)"""
     coq_makefile()
     try:
-        r = run(["make", "-j16", "-k"] + targets, cwd=COQ, timeout=timeout)
+        r = run(["timeout", "-k", "10", str(timeout), "make", "-j16", "-k"] + targets, cwd=COQ, timeout=timeout + 30)
     except subprocess.TimeoutExpired as e:
         return False, "TIMEOUT building %s\n%s" % (targets, e.stdout or "")
     return r.returncode == 0, r.stdout
@@ -298,8 +298,8 @@ def _coq_eval_shard(args):
         f.write("Definition V := Eval vm_compute in (violations cases).\nPrint V.\n")
     t0 = time.time()
     try:
-        r = run(["bash", "-c", "ulimit -s unlimited 2>/dev/null || ulimit -s 1000000 2>/dev/null; exec coqc -Q %s Whawty -Q %s WhawtyRun -w -notation-overridden %s"
-                 % (os.path.join(COQ, "theories"), os.path.join(COQ, "Run"), path)], cwd=workdir, timeout=1500)
+        r = run(["bash", "-c", "ulimit -s unlimited 2>/dev/null || ulimit -s 1000000 2>/dev/null; exec timeout -k 5 900 coqc -Q %s Whawty -Q %s WhawtyRun -w -notation-overridden %s"
+                 % (os.path.join(COQ, "theories"), os.path.join(COQ, "Run"), path)], cwd=workdir, timeout=960)
     except subprocess.TimeoutExpired:
         return idx, None, None, "timeout", time.time() - t0
     if r.returncode != 0:
